@@ -3,7 +3,9 @@
 The real `segment_fetcher` async generator runs on the real legacy `NDNApp` with an in-memory face on the
 virtual-time loop.  A simulated producer looks at every Interest the application writes to the face and, following a
 per-Interest script, answers with Data (FinalBlockId markers as the case says), answers with Data that the validator
-rejects, sends a network Nack, or stays silent (then the clock is advanced past the Interest lifetime)."""
+rejects, sends a network Nack, or stays silent (then the clock is advanced past the Interest lifetime).  In the busy stream
+the application does other things meanwhile (case['others']: Interests of other components, a second fetch, incoming
+Interests); what the fetch yields and when it fails is judged exactly as when it is alone."""
 import re
 from apphelp import AppRig
 
@@ -57,10 +59,19 @@ RULE = ('objects: unsegmented (Data named exactly the prefix / with a version / 
         'Data landing on a segment Interest, late Nacks / invalid Data, every attempt answered just too late, answers arriving '
         'after the end (they must be dropped quietly) - and the Interests seen by the simulated producer WITH THEIR SEND TIMES '
         'are compared with the timed model; cases whose answers all arrive within the lifetime are put to the untimed models '
-        'as well (all three must agree); non-trivial = at least two Interests were sent and something was yielded or a retry happened; '
+        'as well (all three must agree); a busy stream (oracle only): the fetch is not alone on its NDNApp - other components express '
+        'Interests under the name of the fetcher\'s Interest in progress / of the one it sends next / the prefix / the versioned '
+        'name / longer and unrelated names, with or after a given Interest of the fetcher or before the fetch began, lifetimes '
+        'from 1 ms to 4 lifetimes of the fetcher, CanBePrefix / MustBeFresh either way, answered (in time, late, by an invalid '
+        'Data, by a Data with a longer name that satisfies only them), Nacked, left to time out or given up (task cancelled) at '
+        'any time; a second segment_fetcher with another timeout / limit and its own loss script runs beside it (judged by the '
+        'same oracle; of another object - of the same object with VERIF_C19_SAME_OBJECT=1, a finding); Interests arrive for '
+        'prefixes the application serves (the fetched prefix among them) and its handler replies or not; every packet that '
+        'reaches the application counts for the fate of the fetcher\'s Interest it matches, whoever asked for it; non-trivial = at least two Interests were sent and something was yielded or a retry happened; '
         'distinct = distinct (object, discovery, limit, script)')
 
 PREFIX = '/obj'
+PREFIX2 = '/obj2'        # what a second fetch on the same application fetches (unless it is the same object)
 UNSEG_ID = 999
 EMPTY_ID = -2           # a yielded content that is empty or None
 
@@ -168,7 +179,7 @@ def _targeted(rng, tier):
 
 def _oracle_only(case):
     o = case['obj']
-    return bool(o.get('content') or o.get('fbi_type'))
+    return bool(o.get('content') or o.get('fbi_type') or case.get('others') or case.get('start'))
 
 
 def _delay(rng, T, o):
@@ -225,30 +236,154 @@ def _delayed_targeted(rng, tier):
     yield dict(base, timeout_ms=0, obj=seg3, script='', retry=1)
 
 
+def _delayed_one(rng):
+    retry = rng.choice([0, 1, 2, 3, 3, 4])
+    a = max(1, retry)
+    T = rng.choice([1000, 1000, 125, 50, 4000, 250])
+    if rng.random() < 0.1:
+        obj = {'kind': 'unseg', 'name': rng.choice(['exact', 'version', 'generic'])}
+        nreq, disc = 1, 0
+    else:
+        nseg = rng.choice([1, 1, 2, 2, 3, 3, 4, 5, 6])
+        obj = {'kind': 'seg', 'fbi': _fbis(rng, nseg)}
+        r = rng.random()
+        disc = 0 if r < 0.3 else nseg - 1 if r < 0.45 else rng.randrange(nseg) if r < 0.95 else nseg
+        nreq = nseg + 2
+    if rng.random() < 0.5:
+        script = _script(rng, nreq, a)
+        script += 'd' * rng.randint(0, 3)
+    else:
+        script = ''.join(rng.choice('ddddddtnv' if rng.random() < 0.2 else 'dddddt') for _ in range(rng.randint(1, 2 * nreq + 2)))
+    case = {'obj': obj, 'disc': disc, 'retry': retry, 'script': script, 'timeout_ms': T, 'fresh': rng.random() < 0.5,
+            'delays': [_delay(rng, T, o) for o in script]}
+    if rng.random() < 0.3:
+        case['nack'] = rng.choice(NACK_REASONS)
+    return case
+
+
 def _delayed(rng, tier):
     n = 1500 if tier == 'quick' else 40000
     for _ in range(n):
-        retry = rng.choice([0, 1, 2, 3, 3, 4])
-        a = max(1, retry)
-        T = rng.choice([1000, 1000, 125, 50, 4000, 250])
-        if rng.random() < 0.1:
-            obj = {'kind': 'unseg', 'name': rng.choice(['exact', 'version', 'generic'])}
-            nreq, disc = 1, 0
-        else:
-            nseg = rng.choice([1, 1, 2, 2, 3, 3, 4, 5, 6])
-            obj = {'kind': 'seg', 'fbi': _fbis(rng, nseg)}
-            r = rng.random()
-            disc = 0 if r < 0.3 else nseg - 1 if r < 0.45 else rng.randrange(nseg) if r < 0.95 else nseg
-            nreq = nseg + 2
-        if rng.random() < 0.5:
-            script = _script(rng, nreq, a)
-            script += 'd' * rng.randint(0, 3)
-        else:
-            script = ''.join(rng.choice('ddddddtnv' if rng.random() < 0.2 else 'dddddt') for _ in range(rng.randint(1, 2 * nreq + 2)))
-        case = {'obj': obj, 'disc': disc, 'retry': retry, 'script': script, 'timeout_ms': T, 'fresh': rng.random() < 0.5,
-                'delays': [_delay(rng, T, o) for o in script]}
+        yield _delayed_one(rng)
+
+
+# -- other traffic on the same application while the fetch is running (checked by the oracle only) --------------------
+# case['others'] = list of
+#   {'kind': 'int', 'at': j, 'lag': ms, 'name': rel, 'lt': ms, 'cbp': bool, 'mbf': bool, 'ans': d|t|n|v|x, 'dly': ms, 'cancel': None|ms}
+#       another component of the application expresses an Interest `lag` ms after the producer saw the fetcher's j-th
+#       Interest (j = -1: `lag` ms after time 0, the fetch itself starting at case['start'] ms); its name is relative to that
+#       Interest (OTHER_NAMES); the producer answers it after `dly` ms with the Data that matches it / an invalid Data / a
+#       Nack / not at all / (x, for a CanBePrefix Interest with a segment's name) with a Data one component longer than
+#       the name asked for, which satisfies it but no segment Interest; `cancel`: the component gives up (cancels its task) that many ms after expressing it
+#   {'kind': 'fetch', 'at': j, 'lag': ms, 'timeout_ms': T2 != T, 'retry': r, 'script': .., 'delays': [..], ['same': True]}
+#       a second segment_fetcher on the same application (at most one; it is judged by the same oracle), see _same()
+#   {'kind': 'in', 'at': j, 'lag': ms, 'name': rel, 'cbp': bool, 'reply': bool}
+#       an Interest arrives from the network for a prefix the application serves (/obj and /local); the handler
+#       answers with put_data or not
+OTHER_NAMES = ['cur', 'next', 'prefix', 'base', 'deeper', 'sibling', 'unrelated']
+
+
+def _other_int(rng, T, at, name=None):
+    name = name or rng.choice(['cur', 'cur', 'cur', 'next', 'next', 'prefix', 'prefix', 'base', 'deeper', 'sibling', 'unrelated'])
+    lt = max(1, rng.choice([1, T // 20, T // 10, T // 4, T // 2, T - 1, T, T, T + 1, 2 * T, 4 * T]))
+    ans = rng.choice('dddddttttnv')
+    o = {'kind': 'int', 'at': at, 'lag': rng.choice([0, 0, 0, 1, T // 10, T // 4, T // 2, max(0, T - 1), T, T + 1]),
+         'name': name, 'lt': lt, 'cbp': rng.random() < (0.6 if name in ('prefix', 'base') else 0.15), 'mbf': rng.random() < 0.5,
+         'ans': ans, 'dly': _delay(rng, lt, ans), 'cancel': None}
+    if rng.random() < 0.25:
+        o['cancel'] = rng.choice([0, 1, lt // 2, max(0, lt - 1), T // 4])
+    if name in ('cur', 'next') and at > 0 and rng.random() < 0.2:
+        o.update(cbp=True, ans='x')
+    return o
+
+
+def _second_fetch(rng, T, at, nreq):
+    T2 = rng.choice([x for x in (T // 4, T // 2, T - 1, T + 1, 2 * T, 3 * T) if x > 0 and x != T])
+    script = ''.join(rng.choice('ddddddtv' if rng.random() < 0.15 else 'dddddt') for _ in range(rng.randint(0, nreq + 2)))
+    return dict({'kind': 'fetch', 'at': at, 'lag': rng.choice([0, 0, 1, T // 10, T // 2, T]), 'timeout_ms': T2,
+                 'retry': rng.choice([0, 1, 2, 3]), 'script': script, 'delays': [_delay(rng, T2, o) for o in script]}, **_same())
+
+
+def _same():
+    """A second fetch on the same application fetches an object of the same shape under another prefix.  A second fetch of
+    the SAME object is a known defect of the library (finding C19 shared-name-list: the fetcher writes the next segment
+    number into the name list express_interest returned, which the legacy NDNApp hands to every Interest the same Data
+    satisfied - two fetchers of one object then step on each other's names); it is generated only with
+    VERIF_C19_SAME_OBJECT=1."""
+    import os
+    return {'same': True} if os.environ.get('VERIF_C19_SAME_OBJECT') else {}
+
+
+def _busy_targeted(rng, tier):
+    """the grid: which name (that of the fetcher's Interest in progress / of the one it sends next / the prefix) x during the
+    discovery or a segment Interest x expressed with / after the fetcher's x lifetime shorter / equal / longer x what
+    becomes of it (times out, answered, given up), the fetcher's own answers taking half a lifetime; other Interests and a
+    second fetcher that were there before the fetch began; a second fetcher beside it; Interests coming in"""
+    seg3 = {'kind': 'seg', 'fbi': [None, None, 2]}
+    for T in ((1000,) if tier == 'quick' else (1000, 125, 4000)):
+        d = T // 2
+        base = {'obj': seg3, 'disc': 0, 'timeout_ms': T, 'fresh': True, 'script': 'ddd', 'delays': [d, d, d]}
+        for name in ('cur', 'next', 'prefix'):
+            for at in (0, 1):
+                for lag in (0, T // 10):
+                    for lt in (T // 20, T, 3 * T):
+                        for ans, dly, cancel in (('t', 0, None), ('d', d, None), ('t', 0, T // 5)):
+                            yield dict(base, retry=rng.choice([1, 3]),
+                                       others=[{'kind': 'int', 'at': at, 'lag': lag, 'name': name, 'lt': lt, 'cbp': name == 'prefix',
+                                                'mbf': rng.random() < 0.5, 'ans': ans, 'dly': dly, 'cancel': cancel}])
+        # under the name of a segment a longer Data exists: it answers a CanBePrefix Interest, never the fetcher's
+        for name in ('cur', 'next'):
+            for lag, dly in ((0, T // 4), (T // 10, T // 10), (0, T // 2 + 1)):
+                for lt in (T // 2, 2 * T):
+                    yield dict(base, retry=rng.choice([1, 3]),
+                               others=[{'kind': 'int', 'at': 1, 'lag': lag, 'name': name, 'lt': lt, 'cbp': True, 'mbf': False, 'ans': 'x',
+                                        'dly': dly, 'cancel': None}])
+        # what was there before the fetch began, still waiting when the fetcher asks for the same name
+        for name, cbp in (('prefix', True), ('prefix', False), ('seg:0', False), ('seg:1', False), ('base', True)):
+            for lt in (T // 2, 4 * T):
+                for ans in 'td':
+                    yield dict(base, retry=2, start=T // 10, script='dtdd', delays=[d, 0, d, d],
+                               others=[{'kind': 'int', 'at': -1, 'lag': 0, 'name': name, 'lt': lt, 'cbp': cbp, 'mbf': False,
+                                        'ans': ans, 'dly': T, 'cancel': None}])
+        # a second fetcher of the same object: impatient or patient, starting with / a little after / well after the first,
+        # all its Interests answered or some lost
+        for T2 in (T // 4, 2 * T):
+            for at, lag in ((-1, 0), (0, 0), (0, T // 10), (1, T // 4)):
+                for script2, dl2 in (('', []), ('dtd', [T // 8, 0, T // 8]), ('ddd', [T2 + 1, T2 - 1, 0])):
+                    yield dict(base, retry=rng.choice([1, 2, 3]), start=rng.choice([0, T // 10]),
+                               others=[dict({'kind': 'fetch', 'at': at, 'lag': lag, 'timeout_ms': T2, 'retry': rng.choice([1, 3]),
+                                             'script': script2, 'delays': dl2}, **_same())])
+        # Interests coming in for what the application serves, while it fetches
+        for name in ('cur', 'next', 'prefix', 'unrelated'):
+            for at in (0, 1):
+                for reply in (True, False):
+                    yield dict(base, retry=1, others=[{'kind': 'in', 'at': at, 'lag': T // 10, 'name': name, 'cbp': name == 'prefix',
+                                                       'reply': reply}])
+
+
+def _busy(rng, tier):
+    n = 380 if tier == 'quick' else 10000
+    for _ in range(n):
+        case = _delayed_one(rng)
+        T = case['timeout_ms']
+        if case['script'].count('n') + case['script'].count('v') and rng.random() < 0.6:
+            case['script'] = case['script'].replace('n', 'd').replace('v', 'd')
+            case['delays'] = [_delay(rng, T, o) for o in case['script']]
+        nreq = len(case['obj'].get('fbi', [])) + 2
         if rng.random() < 0.3:
-            case['nack'] = rng.choice(NACK_REASONS)
+            case['start'] = rng.choice([1, T // 10, T // 2, T])
+        others = []
+        for _ in range(rng.choice([1, 1, 2, 2, 3, 4])):
+            at = rng.choice([-1, 0, 0, 1, 1, 2, rng.randrange(nreq + 1)])
+            r = rng.random()
+            if r < 0.72:
+                others.append(_other_int(rng, T, at))
+            elif r < 0.86 and not any(o['kind'] == 'fetch' for o in others):
+                others.append(_second_fetch(rng, T, at, nreq))
+            else:
+                others.append({'kind': 'in', 'at': at, 'lag': rng.choice([0, 1, T // 10, T // 2]), 'cbp': rng.random() < 0.5,
+                               'name': rng.choice(['cur', 'next', 'prefix', 'deeper', 'unrelated']), 'reply': rng.random() < 0.6})
+        case['others'] = others
         yield case
 
 
@@ -278,9 +413,46 @@ def cases(rng, tier):
         if obj['kind'] == 'seg' and obj['fbi'] and rng.random() < 0.06:
             obj['content'] = {str(rng.randrange(len(obj['fbi']))): rng.choice(['empty', 'absent'])}
         yield case
+    yield from _busy_targeted(rng, tier)
+    yield from _busy(rng, tier)
+
+
+def _shrink_others(case):
+    oth = case['others']
+    for i in range(len(oth)):
+        rest = oth[:i] + oth[i + 1:]
+        yield dict(case, others=rest) if rest else {a: b for a, b in case.items() if a != 'others'}
+    for i, o in enumerate(oth):
+        def put(**kw):
+            return dict(case, others=oth[:i] + [dict(o, **kw)] + oth[i + 1:])
+        if o['lag'] > 1:
+            yield put(lag=0)
+            yield put(lag=o['lag'] // 2)
+        if o['kind'] == 'int':
+            if o.get('cancel') is not None:
+                yield put(cancel=None)
+            if o['dly'] > 0:
+                yield put(dly=0)
+            if o['ans'] in 'nvdx':
+                yield put(ans='t', dly=0)
+            for k in ('cbp', 'mbf'):
+                if o[k]:
+                    yield put(**{k: False})
+        elif o['kind'] == 'fetch':
+            s2, d2 = o['script'], _delays(o)
+            for k in range(len(s2)):
+                yield put(script=s2[:k] + s2[k + 1:], delays=d2[:k] + d2[k + 1:])
+            if any(d2):
+                yield put(delays=[0] * len(s2))
+        elif o['reply']:
+            yield put(reply=False)
+    if case.get('start'):
+        yield {a: b for a, b in case.items() if a != 'start'}
 
 
 def shrink(case):
+    if case.get('others'):
+        yield from _shrink_others(case)
     s = case['script']
     if case.get('delays'):
         dl = _delays(case)
@@ -326,9 +498,13 @@ def _delays(case):
     return d + [0] * (len(case['script']) - len(d))
 
 
+OTHER_NONCE = 0xC1900000      # nonces the harness gives to the Interests of the other components (the fetchers draw theirs)
+
+
 def run_impl(case):
-    import hashlib, heapq
+    import asyncio, hashlib, heapq, itertools
     from ndn import encoding as enc
+    from ndn import types as ndn_types
     from ndn.encoding.ndnlp_v2 import make_network_nack
     from ndn.app_support.segment_fetcher import segment_fetcher
     from ndn.security import DigestSha256Signer
@@ -336,27 +512,41 @@ def run_impl(case):
     prefix = Name.from_str(PREFIX)
     pfx = [bytes(c) for c in prefix]
     ver = Component.from_version(1)
+    base_name = pfx + [bytes(ver)]
     obj = case['obj']
     fbis = obj.get('fbi', [])
-    script = list(zip(case['script'], _delays(case)))
     T = case['timeout_ms']
-    log, yielded, box, namelog = [], [], {}, []
-    sent, events, flight = [], [], []        # Interests with their times; everything in order; packets on their way
+    events, flight, flags = [], [], []       # everything in order; packets on their way
+    others = case.get('others') or []
+    busy = bool(others)
     signer = DigestSha256Signer()
+    # the fetch the case is about (who = 1) and, among the other traffic, possibly a second fetch of the same object (who = 2)
+    main = {'who': 1, 'T': T, 'retry': case['retry'], 'script': list(zip(case['script'], _delays(case))), 'log': [],
+            'namelog': [], 'sent': [], 'yielded': [], 'box': {}, 'task': None, 'fresh': case['fresh'], 'nack': case.get('nack', 150), 'prefix': prefix}
+    second = None
+    for idx, o in enumerate(others):
+        if o['kind'] == 'fetch' and second is None:
+            second = {'who': 2, 'T': o['timeout_ms'], 'retry': o['retry'], 'script': list(zip(o['script'], _delays(o))), 'log': [],
+                      'namelog': [], 'sent': [], 'yielded': [], 'box': {}, 'task': None, 'fresh': case['fresh'], 'nack': 150,
+                      'idx': idx, 'scheduled': False, 'same': bool(o.get('same')),
+                      'prefix': prefix if o.get('same') else Name.from_str(PREFIX2)}
+    others_out = {}
 
     def content_of(i, normal):
         # 'empty' = a Content element of length 0, 'absent' = no Content element
         kind = obj.get('content', {}).get(str(i))
         return b'' if kind == 'empty' else None if kind == 'absent' else normal
 
-    def seg_packet(i):
+    def seg_packet(i, prefix=prefix):
         fb = fbis[i]
         # the FinalBlockId normally is the segment component of `fb`; 'fbi_type' puts the same number under another type
         fbt = obj.get('fbi_type', {}).get(str(i), Component.TYPE_SEGMENT)
         meta = enc.MetaInfo(final_block_id=None if fb is None else Component.from_number(fb, fbt))
         return enc.make_data(prefix + [ver, Component.from_segment(i)], meta, content_of(i, b'c%d' % i), signer=signer)
 
-    def unseg_packet():
+    unseg_names = {'exact': prefix, 'version': prefix + [ver], 'generic': prefix + [Component.from_str('file.txt')]}
+
+    def unseg_packet(prefix=prefix):
         nm = {'exact': prefix, 'version': prefix + [ver], 'generic': prefix + [Component.from_str('file.txt')]}[obj['name']]
         return enc.make_data(nm, enc.MetaInfo(), content_of(0, b'c%d' % UNSEG_ID), signer=signer)
 
@@ -378,21 +568,111 @@ def run_impl(case):
 
         form = case.get('name_form', 'list')
         given = PREFIX if form == 'str' else Name.to_bytes(PREFIX) if form == 'wire' else Name.from_str(PREFIX)
-        gen = segment_fetcher(rig.app, given, timeout=T, retry_times=case['retry'],
-                              validator=validator, must_be_fresh=case['fresh'])
 
-        async def consume():
+        async def consume(F, gen, start):
+            if start:
+                await asyncio.sleep(start / 1000.0)
             try:
                 async for c in gen:
-                    yielded.append(None if c is None else bytes(c))
-                box['end'] = 'done'
+                    F['yielded'].append(None if c is None else bytes(c))
+                F['box']['end'] = 'done'
             except Exception as e:     # noqa
-                box['end'] = type(e).__name__
-                box['reason'] = getattr(e, 'reason', None)
-            box['end_ms'] = now_ms()
-        task = rig.loop.create_task(consume())
+                F['box']['end'] = type(e).__name__
+                F['box']['reason'] = getattr(e, 'reason', None)
+            F['box']['end_ms'] = now_ms()
+
+        def start_fetch(F, start=0):
+            gen = segment_fetcher(rig.app, given if F is main else list(F['prefix']), timeout=F['T'], retry_times=F['retry'],
+                                  validator=validator, must_be_fresh=F['fresh'])
+            F['task'] = rig.loop.create_task(consume(F, gen, start))
+
+        # ---- the other components of the application
+        def rel_name(rel, trig_name, trig_req):
+            """the name an other Interest carries, relative to the Interest of the fetcher that triggered it"""
+            if rel.startswith('seg:'):
+                return base_name + [bytes(Component.from_segment(int(rel[4:])))]
+            cur = pfx if trig_name is None else trig_name
+            if rel == 'cur':
+                return list(cur)
+            if rel == 'next':
+                if trig_req is None or trig_req == 'D':
+                    nxt = 1 if (case['disc'] == 0 and obj['kind'] == 'seg') else 0
+                else:
+                    nxt = int(trig_req[1:]) + 1 if trig_req[1:].isdigit() else 0
+                return base_name + [bytes(Component.from_segment(nxt))]
+            if rel == 'prefix':
+                return list(pfx)
+            if rel == 'base':
+                return list(base_name)
+            if rel == 'deeper':
+                return list(cur) + [bytes(Component.from_str('x'))]
+            if rel == 'sibling':
+                return pfx + [bytes(Component.from_version(2)), bytes(Component.from_segment(0))]
+            return [bytes(c) for c in Name.from_str('/local/x' if rel == 'unrelated-local' else '/elsewhere/x')]
+
+        def data_for(name, cbp):
+            """the Data of the object that satisfies an Interest with this name: (make packet, segment number, unsegmented?)"""
+            if obj['kind'] == 'unseg':
+                dn = [bytes(c) for c in unseg_names[obj['name']]]
+                return (unseg_packet, None, True) if (name == dn or (cbp and dn[:len(name)] == name)) else None
+            if len(name) == len(base_name) + 1 and name[:-1] == base_name and Component.get_type(name[-1]) == Component.TYPE_SEGMENT:
+                i = Component.to_number(name[-1])
+                return ((lambda: seg_packet(i)), i, False) if i < len(fbis) else None
+            if cbp and name == base_name[:len(name)] and fbis:
+                i = case['disc'] if case['disc'] < len(fbis) else 0
+                return ((lambda: seg_packet(i)), i, False)
+            return None
+
+        def fetcher_name(name):
+            return name == pfx or (len(name) == len(base_name) + 1 and name[:-1] == base_name)
+
+        async def other_interest(idx, o, name):
+            try:
+                await rig.app.express_interest(name, validator=validator, can_be_prefix=o['cbp'], must_be_fresh=o['mbf'],
+                                               lifetime=o['lt'], nonce=OTHER_NONCE + idx)
+                others_out[idx] = 'data'
+            except (ndn_types.InterestTimeout, ndn_types.InterestNack, ndn_types.InterestCanceled,
+                    ndn_types.ValidationFailure) as e:
+                others_out[idx] = type(e).__name__
+
+        def on_incoming(name, param, app_param):
+            key = _name_hex(name)
+            events.append({'k': 'O', 't': now_ms(), 'what': 'incoming-handled'})
+            if incoming_reply.get(key):
+                rig.app.put_data(name, content=b'served-locally', freshness_period=1000)
+
+        incoming_reply, other_trig = {}, {}
+
+        def start_other(idx, trig_name, trig_req):
+            o = others[idx]
+            if o['kind'] == 'fetch':
+                if second is not None and second['idx'] == idx:
+                    start_fetch(second)
+                return
+            rel = o['name']
+            if o['kind'] == 'in' and rel == 'unrelated':
+                rel = 'unrelated-local'
+            name = rel_name(rel, trig_name, trig_req)
+            events.append({'k': 'O', 't': now_ms(), 'what': o['kind'], 'idx': idx, 'name': Name.to_str(name)})
+            if o['kind'] == 'in':
+                incoming_reply[_name_hex(name)] = o['reply']
+                wire = bytes(enc.make_interest(name, enc.InterestParam(can_be_prefix=o['cbp'], lifetime=4000, nonce=idx + 1)))
+                rig.loop.create_task(rig.face.callback(0x05, wire))
+                return
+            other_trig[idx] = trig_req
+            t = rig.loop.create_task(other_interest(idx, o, name))
+            if o.get('cancel') is not None:
+                rig.loop.call_later(o['cancel'] / 1000.0, t.cancel)
+
+        def trigger(j, trig_name, trig_req):
+            for idx, o in enumerate(others):
+                if o['at'] == j:
+                    if o['kind'] == 'fetch' and second is not None and second['idx'] == idx:
+                        second['scheduled'] = True
+                    rig.loop.call_later(o['lag'] / 1000.0, start_other, idx, trig_name, trig_req)
+
         state = {'seen': 0}
-        flags = []
+        order = itertools.count()
 
         def producer():
             """look at every Interest the application has written since the last call and put the answer the script
@@ -400,46 +680,63 @@ def run_impl(case):
             new = rig.face.sent[state['seen']:]
             state['seen'] = len(rig.face.sent)
             for w in new:
+                if busy and w[:1] != b'\x05':
+                    events.append({'k': 'O', 't': now_ms(), 'what': 'data-out'})     # the answer of the application's own handler
+                    continue
                 try:
                     name, param, _, _ = enc.parse_interest(w)
                 except Exception:      # noqa
-                    log.append(['?', 'x'])
+                    main['log'].append(['?', 'x'])
                     events.append({'k': 'I', 't': now_ms(), 'req': '?'})
                     continue
                 name = [bytes(c) for c in name]
+                if busy and param.nonce is not None and OTHER_NONCE <= param.nonce < OTHER_NONCE + len(others):
+                    answer_other(param.nonce - OTHER_NONCE, w, name, param)
+                    continue
+                # whose Interest: a second fetch of the same object is told by its lifetime, of another object by its prefix
+                F = main
+                if second is not None and (param.lifetime == second['T'] if second['same'] else name[:1] != pfx[:1]):
+                    F = second
+                fpre = F['prefix']
+                fpfx = [bytes(c) for c in fpre]
                 seg = None
-                if name == pfx:
+                if name == fpfx:
                     req, pkt = 'D', None
                     if obj['kind'] == 'unseg':
-                        pkt = unseg_packet
+                        pkt = lambda: unseg_packet(fpre)
                     elif case['disc'] < len(fbis):
                         seg = case['disc']
-                        pkt = lambda: seg_packet(case['disc'])
+                        pkt = lambda: seg_packet(case['disc'], fpre)
                     if not param.can_be_prefix:
                         flags.append('discovery-without-CanBePrefix')
-                elif (len(name) == len(prefix) + 2 and name[:-1] == pfx + [bytes(ver)]
+                elif (len(name) == len(fpfx) + 2 and name[:-1] == fpfx + [bytes(ver)]
                       and Component.get_type(name[-1]) == Component.TYPE_SEGMENT):
                     i = Component.to_number(name[-1])
                     req = 'S%d' % i
                     seg = i
-                    pkt = (lambda i=i: seg_packet(i)) if (obj['kind'] == 'seg' and i < len(fbis)) else None
+                    pkt = (lambda i=i: seg_packet(i, fpre)) if (obj['kind'] == 'seg' and i < len(fbis)) else None
                     if param.can_be_prefix:
                         flags.append('segment-Interest-with-CanBePrefix')
                 else:
                     req, pkt = '?' + Name.to_str(name), None
-                if param.lifetime != T:
+                if param.lifetime != F['T']:
                     flags.append('lifetime')
                 if bool(param.must_be_fresh) != case['fresh']:
                     flags.append('must_be_fresh')
-                o, dly = script.pop(0) if script else ('d', 0)
+                o, dly = F['script'].pop(0) if F['script'] else ('d', 0)
                 eff = 'n' if o == 'n' else 't' if (pkt is None or o == 't') else o
-                namelog.append([_name_hex(name), eff])
-                log.append([req, eff])
-                k = len(sent)
-                sent.append([req, now_ms()])
-                events.append({'k': 'I', 't': now_ms(), 'req': req})
+                F['namelog'].append([_name_hex(name), eff])
+                F['log'].append([req, eff])
+                k = len(F['sent'])
+                F['sent'].append([req, now_ms()])
+                ev = {'k': 'I', 't': now_ms(), 'req': req}
+                if F is not main:
+                    ev['who'] = 2
+                events.append(ev)
+                if F is main and busy:
+                    trigger(k, name, req)
                 if eff == 'n':
-                    wire = bytes(make_network_nack(w, case.get('nack', 150)))
+                    wire = bytes(make_network_nack(w, F['nack']))
                 elif eff == 't':
                     continue
                 else:
@@ -448,51 +745,129 @@ def run_impl(case):
                         wire[-1] ^= 1          # the last byte of the packet is the last byte of the signature value
                     wire = bytes(wire)
                 # ordered by arrival time, first sent first among equals
-                heapq.heappush(flight, (now_ms() + dly, len(events), wire,
-                                        {'k': 'P', 'kind': eff, 'for': k, 'req': req, 'seg': None if eff == 'n' else seg,
-                                         'unseg': eff != 'n' and obj['kind'] == 'unseg'}))
+                heapq.heappush(flight, (now_ms() + dly, next(order), wire,
+                                        dict({'k': 'P', 'kind': eff, 'for': k if F is main else None, 'req': req,
+                                              'seg': None if eff == 'n' else seg, 'unseg': eff != 'n' and obj['kind'] == 'unseg'},
+                                             **({'obj2': True} if fpfx != pfx else {}))))
+
+        def answer_other(idx, w, name, param):
+            """an Interest of another component: the Data that satisfies it (possibly damaged), a Nack (only for names no
+            fetcher ever asks for: whom a Nack for a name shared by two Interests concerns is not this property's business),
+            or nothing"""
+            o = others[idx]
+            ans = o['ans']
+            found = data_for(name, bool(param.can_be_prefix))
+            if ans == 'n':
+                if fetcher_name(name):
+                    return
+                wire, info = bytes(make_network_nack(w, 150)), {'kind': 'n', 'seg': None, 'unseg': False}
+            elif ans == 'x':
+                # only once the fetcher is past its discovery Interest (which any Data under the prefix would answer)
+                # and no second fetch of the same object is about (its discovery Interest may come at any time)
+                if not (param.can_be_prefix and (other_trig.get(idx) or '').startswith('S') and len(name) == len(base_name) + 1
+                        and name[:-1] == base_name) or (second is not None and second['same']):
+                    return
+                wire = bytes(enc.make_data(name + [Component.from_str('x')], enc.MetaInfo(), b'longer-name', signer=signer))
+                info = {'kind': 'd', 'seg': None, 'unseg': False, 'longer': True}
+            elif ans == 't' or found is None:
+                return
+            else:
+                wire = bytearray(found[0]())
+                if ans == 'v':
+                    wire[-1] ^= 1
+                wire, info = bytes(wire), {'kind': ans, 'seg': found[1], 'unseg': found[2]}
+            heapq.heappush(flight, (now_ms() + o['dly'], next(order), wire, dict(info, k='P', req='~other%d' % idx, **{'for': None})))
+
+        def alive(F):
+            return F is not None and F['task'] is not None and not F['task'].done()
 
         def hand_over():
             ta, _, wire, info = heapq.heappop(flight)
             rig.loop.advance(t0 + ta / 1000.0)
-            events.append(dict(info, t=ta, live=not task.done()))
+            ev = dict(info, t=ta, live=alive(main))
+            if second is not None:
+                ev['live2'] = alive(second)
+            events.append(ev)
             rig.deliver(wire)
 
+        def pump():
+            producer()
+            while busy and rig.loop._busy():
+                rig.loop.settle()        # what the other components do at this very instant
+                producer()
+
+        def waiting():
+            """is a fetch that is judged still to come or running?"""
+            return not main['task'].done() or (second is not None and second['scheduled']
+                                                and (second['task'] is None or not second['task'].done()))
+
         try:
+            if any(o['kind'] == 'in' for o in others):
+                rig.app.set_interest_filter(PREFIX, on_incoming)
+                rig.app.set_interest_filter('/local', on_incoming)
+            # what the other components do before the fetch is started (lag 0: before it at the same instant)
+            for idx, o in enumerate(others):
+                if o['at'] == -1:
+                    if o['kind'] == 'fetch' and second is not None and second['idx'] == idx:
+                        second['scheduled'] = True
+                    if o['lag'] == 0:
+                        rig.loop.call_soon(start_other, idx, None, None)
+                    else:
+                        rig.loop.call_later(o['lag'] / 1000.0, start_other, idx, None, None)
+            if busy:
+                rig.loop.settle()
+            start_fetch(main, case.get('start', 0))
             rig.loop.settle()
             steps = 0
             limit = (len(fbis) + 3) * (max(1, case['retry']) + 3) * 4 + 40 + 4 * len(case['script'])
-            producer()
-            while not task.done():
+            for o in others:
+                limit += 8 if o['kind'] != 'fetch' else (len(fbis) + 3) * (max(1, o['retry']) + 3) * 4 + 4 * len(o['script'])
+            pump()
+            while waiting():
                 steps += 1
                 w = rig.loop._next_timer()
                 w_ms = None if w is None else int(round((w - t0) * 1000))
                 if steps > limit or (w is None and not flight):
-                    box['end'] = 'HANG'
+                    for F in (main, second):
+                        if F is not None and (F['task'] is None or not F['task'].done()):
+                            F['box']['end'] = 'HANG'
                     break
                 if flight and (w_ms is None or flight[0][0] < w_ms):
                     hand_over()              # a packet that arrives before the next timer is due
                 else:
                     rig.loop.advance(w)      # timers first when both fall on the same instant
-                producer()
+                pump()
             # what is still on its way arrives when nobody waits for it any more: it has to be dropped quietly
             for _ in range(min(len(flight), 64)):
                 hand_over()
         except RuntimeError as e:
             if 'did not quiesce' not in str(e):
                 raise
-            box['end'] = 'HANG'      # the fetcher spins without the clock moving
-        ids = []
-        for c in yielded:
-            m = re.fullmatch(rb'c(\d+)', c or b'')
-            ids.append(int(m.group(1)) if m else EMPTY_ID if not c else -1)
-        unseg_names = {'exact': prefix, 'version': prefix + [ver], 'generic': prefix + [Component.from_str('file.txt')]}
-        return {'yielded': ids, 'log': log, 'end': box.get('end', '?'), 'flags': sorted(set(flags)),
-                'nack_reason': box.get('reason') if box.get('end') == 'InterestNack' else None,
-                'namelog': namelog, 'prefix_hex': _name_hex(prefix),
-                'base_hex': _name_hex(unseg_names[obj['name']] if obj['kind'] == 'unseg' else prefix + [ver]),
-                'sent': sent, 'events': events, 'end_ms': box.get('end_ms'), 'late': _is_late(case),
-                'loop_errors': [e for e in rig.loop.errors]}
+            for F in (main, second):
+                if F is not None and (F['task'] is None or not F['task'].done()):
+                    F['box']['end'] = 'HANG'      # the fetcher spins without the clock moving
+
+        def ids_of(yielded):
+            ids = []
+            for c in yielded:
+                m = re.fullmatch(rb'c(\d+)', c or b'')
+                ids.append(int(m.group(1)) if m else EMPTY_ID if not c else -1)
+            return ids
+        box = main['box']
+        out = {'yielded': ids_of(main['yielded']), 'log': main['log'], 'end': box.get('end', '?'), 'flags': sorted(set(flags)),
+               'nack_reason': box.get('reason') if box.get('end') == 'InterestNack' else None,
+               'namelog': main['namelog'], 'prefix_hex': _name_hex(prefix),
+               'base_hex': _name_hex(unseg_names[obj['name']] if obj['kind'] == 'unseg' else prefix + [ver]),
+               'sent': main['sent'], 'events': events, 'end_ms': box.get('end_ms'), 'late': _is_late(case),
+               'loop_errors': [e for e in rig.loop.errors]}
+        if busy:
+            out['others_out'] = {str(k): v for k, v in sorted(others_out.items())}
+        if second is not None and second['task'] is not None:
+            b2 = second['box']
+            out['second'] = {'yielded': ids_of(second['yielded']), 'log': second['log'], 'end': b2.get('end', '?'),
+                             'nack_reason': b2.get('reason') if b2.get('end') == 'InterestNack' else None,
+                             'sent': second['sent'], 'end_ms': b2.get('end_ms')}
+        return out
 
 
 def _is_late(case):
@@ -578,6 +953,10 @@ def _fates(case, impl):
     T = case['timeout_ms']
     ints, fate, cur = [], [], None
     for ev in impl['events']:
+        if ev['k'] == 'O' or (ev['k'] == 'I' and ev.get('who', 1) != impl.get('who', 1)):
+            continue        # what other components of the application did / Interests of another fetch
+        if ev['k'] == 'P' and bool(ev.get('obj2')) != bool(impl.get('obj2')):
+            continue        # a packet of another object
         if ev['k'] == 'I':
             if cur is not None and fate[cur] is None:
                 if ev['t'] < ints[cur][1] + T:
@@ -604,6 +983,26 @@ def _fates(case, impl):
 
 
 def oracle(case, impl):
+    why = _judge(case, impl)
+    if why is None and impl.get('second'):
+        # the second fetch of the same object, running on the same application, is a fetch like any other: the same judgement,
+        # from the Interests it sent and every packet that reached the application while it was running
+        o2 = next(o for o in case['others'] if o['kind'] == 'fetch')
+        s2 = impl['second']
+        ev2 = []
+        for ev in impl['events']:
+            if ev['k'] == 'I' and ev.get('who') == 2:
+                ev2.append(ev)
+            elif ev['k'] == 'P':
+                ev2.append(dict(ev, live=ev.get('live2', False)))
+        why = _judge(dict(case, retry=o2['retry'], timeout_ms=o2['timeout_ms'], nack=case.get('nack', 150)),
+                     dict(s2, events=ev2, loop_errors=[], who=2, obj2=not o2.get('same')))
+        if why is not None:
+            why = 'second fetch: ' + why
+    return why
+
+
+def _judge(case, impl):
     a = max(1, case['retry'])
     exp, has_final = _expected(case)
     y, end = impl['yielded'], impl['end']
@@ -689,11 +1088,24 @@ def tags(case, impl):
         if o2 != 't' and d:
             t.append('delay:' + ('below' if d < T else 'at' if d == T else 'above'))
     t.append('late-answers:' + str(impl['late']))
+    for idx, x in enumerate(case.get('others') or []):
+        t.append('other:' + x['kind'])
+        if x['kind'] != 'fetch':
+            t.append('other-name:' + x['name'].split(':')[0])
+        if x['kind'] == 'int':
+            t.append('other-lifetime:' + ('shorter' if x['lt'] < T else 'equal' if x['lt'] == T else 'longer'))
+            t.append('other-outcome:' + str(impl.get('others_out', {}).get(str(idx), 'not-finished' if any(
+                ev['k'] == 'O' and ev.get('idx') == idx for ev in impl['events']) else 'never-expressed')))
+            if x.get('cancel') is not None:
+                t.append('other-given-up')
+        t.append('other-when:' + ('before-the-fetch' if x['at'] < 0 else 'discovery' if x['at'] == 0 else 'segments'))
+    if impl.get('second'):
+        t.append('second-fetch-end:' + impl['second']['end'])
     # a packet sent in answer to one Interest that decided another one
     fates, _ = _fates(case, impl)
     if fates is not None:
         live = [ev for ev in impl['events'] if ev['k'] == 'P' and ev.get('live')]
-        if any(ev['t'] >= impl['sent'][ev['for']][1] + T for ev in live):
+        if any(ev['t'] >= impl['sent'][ev['for']][1] + T for ev in live if ev['for'] is not None):
             t.append('answer-arrived-after-its-deadline')
         if any(ev['k'] == 'P' and not ev.get('live') for ev in impl['events']):
             t.append('answer-arrived-after-the-end')
